@@ -24,7 +24,8 @@ type retCase struct {
 	ErrMsg  core.B `json:"err_msg,omitempty"` //
 	Pos     int    `json:"pos"`               // number of silent handlers before it
 	Reflect bool   `json:"reflective"`        // add an injected parameter so that the built-in fast path cannot apply
-	Custom  string `json:"custom,omitempty"`  // "" | app | request : a custom ReturnHandler is registered there
+	Custom  string `json:"custom,omitempty"`  // "" | app | request | request-late : a custom ReturnHandler is registered there (late = after the silent handlers ran)
+	PreRet  bool   `json:"silent_handlers_return_values,omitempty"` // the preceding silent handlers return "" / nil error / nil []byte
 	Method  string `json:"method,omitempty"`
 }
 
@@ -227,7 +228,13 @@ func genRetCase(rng *rand.Rand) *retCase {
 		c.ErrMsg = core.B([]string{"boom", "", "e: x", "\xff"}[rng.Intn(4)])
 	}
 	if rng.Intn(8) == 0 {
-		c.Custom = []string{"app", "request"}[rng.Intn(2)]
+		c.Custom = []string{"app", "request", "request-late"}[rng.Intn(3)]
+	}
+	if c.Custom != "app" && c.Custom != "request" && rng.Intn(2) == 0 {
+		c.PreRet = true
+		if c.Pos == 0 {
+			c.Pos = 1
+		}
 	}
 	return c
 }
@@ -265,7 +272,19 @@ func judgeRet(w *core.W, c *retCase) {
 		hs = append(hs, func(ctx flamego.Context) { ctx.Map(custom) })
 	}
 	for i := 0; i < c.Pos; i++ {
-		hs = append(hs, func() { pre++ })
+		switch {
+		case !c.PreRet:
+			hs = append(hs, func() { pre++ })
+		case i%3 == 0:
+			hs = append(hs, func() string { pre++; return "" })
+		case i%3 == 1:
+			hs = append(hs, func() error { pre++; return nil })
+		default:
+			hs = append(hs, func() []byte { pre++; return nil })
+		}
+	}
+	if c.Custom == "request-late" {
+		hs = append(hs, func(ctx flamego.Context) { ctx.Map(custom) })
 	}
 	marker := 0
 	hs = append(hs, h, func() { marker++ })
@@ -301,7 +320,10 @@ func judgeRet(w *core.W, c *retCase) {
 	if c.Custom != "" {
 		w.Count("custom:" + c.Custom)
 	}
-	w.NonTrivial(core.Hash64(c.Shape, cls, path, c.Custom, fmt.Sprint(c.Pos), fmt.Sprint(c.Int), string(c.Str), c.Err, string(c.ErrMsg)), func() interface{} {
+	if c.PreRet {
+		w.Count("silent-handlers-returned-values")
+	}
+	w.NonTrivial(core.Hash64(c.Shape, cls, path, c.Custom, fmt.Sprint(c.Pos, c.PreRet), fmt.Sprint(c.Int), string(c.Str), c.Err, string(c.ErrMsg)), func() interface{} {
 		return map[string]interface{}{"case": c, "status": spy.status, "body": core.B(spy.body), "next_handler_ran": marker == 1}
 	})
 }
@@ -380,7 +402,7 @@ func runC14(r *core.Run) {
 		}
 		r.GateCounter("class:"+s+"/non-empty", 50)
 	}
-	for _, k := range []string{"class:string/zero", "class:named/zero", "class:bytes/nil", "class:*string/nil", "class:*bytes/nil", "class:iface/nil", "class:error/error", "class:error/zero", "class:int,error/error", "class:string,error/error", "class:bytes,error/error", "class:int,string/zero", "class:int,bytes/nil", "path:fast", "path:reflective", "custom:app", "custom:request"} {
+	for _, k := range []string{"class:string/zero", "class:named/zero", "class:bytes/nil", "class:*string/nil", "class:*bytes/nil", "class:iface/nil", "class:error/error", "class:error/zero", "class:int,error/error", "class:string,error/error", "class:bytes,error/error", "class:int,string/zero", "class:int,bytes/nil", "path:fast", "path:reflective", "custom:app", "custom:request", "custom:request-late", "silent-handlers-returned-values"} {
 		r.GateCounter(k, 50)
 	}
 	r.Gate("distinct_nontrivial", r.NonTrivialCount(), 2000)
